@@ -270,6 +270,9 @@ def guard_sentinel(ctx, prog):
             rv = s.rv or {}
             if "agg" in rv and isinstance(rv["agg"], dict) and rv["agg"].get("adt", "").endswith("public::Observer"):
                 names = rv["agg"]["fields"]
+                if "sentinel" not in names:
+                    ctx.site(R, C, "clone: Observer has no sentinel field")
+                    continue
                 e = expr(C, rv["ops"][names.index("sentinel")], du)
                 ctx.site(R, C, "clone: sentinel <- %s" % show(e))
                 if e[0] == "call" and e[1].endswith("Clone::clone") and mentions(
@@ -290,6 +293,9 @@ def guard_sentinel(ctx, prog):
             rv = s.rv or {}
             if "agg" in rv and isinstance(rv["agg"], dict) and rv["agg"].get("adt", "").endswith("public::Observer"):
                 names = rv["agg"]["fields"]
+                if "sentinel" not in names:
+                    ctx.site(R, N, "new: Observer has no sentinel field")
+                    continue
                 e = expr(N, rv["ops"][names.index("sentinel")], du)
                 ctx.site(R, N, "new: sentinel <- %s" % show(e))
                 if e[0] == "call" and e[1].endswith("Rc::new"):
